@@ -28,6 +28,8 @@ func (r *Reader) ReadMetadata() (err error) {
 		if logLevelInfo() {
 			logInfo().Object("box", b).Send()
 		}
+		// skip boxes that are not handled (free, skip, vendor boxes)
+		err = b.close()
 	}
 	if err != nil && logLevelError() {
 		logError().Object("box", b).Err(err).Send()
